@@ -697,6 +697,15 @@ func (in *e8interp) exec(fr *e8frame, st ast.Stmt) *e8return {
 		return nil
 	case *ast.IncDecStmt:
 		v := in.eval(fr, s.X)
+		if v.k == kScalar {
+			// a symbolic counter: the successor is a derived atom
+			op := "+"
+			if s.Tok == token.DEC {
+				op = "-"
+			}
+			in.assignTo(fr, s.X, &val{k: kScalar, name: "(" + v.name + op + "1)"}, false)
+			return nil
+		}
 		if v.k != kInt {
 			e8fail("++/-- on a non-concrete integer")
 		}
